@@ -51,10 +51,24 @@ def _get_uses_of(node: ast.AST, scope: ast.AST, source: str) -> Iterable[ast.Nam
         for child in core.walk(funcdef, ast.Name(ctx=ast.Store, id=name)):
             blacklisted_names.update(core.walk(child, ast.Name))
 
+    # A comprehension or lambda that binds the name has a variable of its own
+    for comp in core.walk(scope, (ast.ListComp, ast.SetComp, ast.GeneratorExp, ast.DictComp)):
+        if any(
+            True for generator in comp.generators for _ in core.walk(generator.target, ast.Name(id=name))
+        ):
+            outer_names = set(core.walk(comp.generators[0].iter, ast.Name))
+            blacklisted_names.update(
+                child for child in core.walk(comp, ast.Name(id=name)) if child not in outer_names
+            )
+    for lambda_node in core.walk(scope, ast.Lambda):
+        if any(core.walk(lambda_node.args, ast.arg(arg=name))):
+            blacklisted_names.update(core.walk(lambda_node.body, ast.Name(id=name)))
+
     augass_candidates = {
         target
         for augass in core.walk(scope, ast.AugAssign)
         for target in core.walk(augass, ast.Name(id=name))
+        if target not in blacklisted_names
     }
 
     ctx_load_candidates = {
@@ -63,7 +77,14 @@ def _get_uses_of(node: ast.AST, scope: ast.AST, source: str) -> Iterable[ast.Nam
         if refnode not in blacklisted_names
     }
 
-    for refnode in augass_candidates | ctx_load_candidates:
+    # Assignments further down in the same scope, e.g. in the body of a loop, are the same variable
+    ctx_store_candidates = {
+        refnode
+        for refnode in core.walk(scope, ast.Name(ctx=ast.Store, id=name))
+        if refnode not in blacklisted_names and refnode is not node
+    }
+
+    for refnode in augass_candidates | ctx_load_candidates | ctx_store_candidates:
         n_start = (refnode.lineno, refnode.col_offset)
         n_end = (refnode.end_lineno, refnode.end_col_offset)
         if end < n_start:
